@@ -50,6 +50,15 @@ def run(ctx) -> None:
     ccalls = [n for n in walk_own(cc.node) if isinstance(n, ast.Call)]
     rep.check("C12.R1", all(call_name(c) in ("get",) or "NoCurrentContext" in ast.unparse(c) for c in ccalls), cc, cc.node, "current_context() only reads the variable", "current_context() does more than read the variable")
     raises = [n for n in walk_own(cc.node) if isinstance(n, ast.Raise)]
+    # ... and returns exactly what it read: no walking up, no skipping, no substitution
+    rets_cc = [r for r in walk_own(cc.node) if isinstance(r, ast.Return) and r.value is not None]
+    got_vars = {t.id for n in walk_own(cc.node) if isinstance(n, ast.Assign) and isinstance(n.value, ast.Call) and call_name(n.value) == "get" for t in n.targets if isinstance(t, ast.Name)}
+    got_vars |= {n.target.id for n in walk_own(cc.node) if isinstance(n, ast.NamedExpr) and isinstance(n.value, ast.Call) and call_name(n.value) == "get" and isinstance(n.target, ast.Name)}
+    got_vars |= {n.target.id for n in walk_own(cc.node) if isinstance(n, ast.AnnAssign) and isinstance(n.value, ast.Call) and call_name(n.value) == "get" and isinstance(n.target, ast.Name)}
+    redefs = [n for n in walk_own(cc.node) if isinstance(n, (ast.Assign, ast.AugAssign, ast.AnnAssign)) and not (isinstance(getattr(n, "value", None), ast.Call) and call_name(n.value) == "get") and any(isinstance(t, ast.Name) and t.id in got_vars for t in (n.targets if isinstance(n, ast.Assign) else [n.target]))]
+    loops_cc = [n for n in walk_own(cc.node) if isinstance(n, (ast.While, ast.For))]
+    direct = all((isinstance(r.value, ast.Name) and r.value.id in got_vars) or (isinstance(r.value, ast.Call) and call_name(r.value) == "get") or (isinstance(r.value, ast.Call) and call_name(r.value) == "cast" and len(r.value.args) == 2 and isinstance(r.value.args[1], ast.Name) and r.value.args[1].id in got_vars) for r in rets_cc)
+    rep.check("C12.R1", bool(rets_cc) and direct and not redefs and not loops_cc, cc, (redefs or loops_cc or rets_cc or [cc.node])[0], "current_context() returns exactly the value it read from the variable", "current_context() post-processes what it read (walks to another context / skips some): a task no longer sees the context it inherited or entered, and what it sees depends on what OTHER tasks did to that context")
     rep.check("C12.R1", bool(raises) and "NoCurrentContext" in ast.unparse(raises[0]), cc, cc.node, "no current context -> NoCurrentContext", "current_context() does not raise NoCurrentContext when there is none")
     # no second cache of "the current context"
     globals_ = [k for k, v in an.Context.module.assigns.items() if k != var and ("ContextVar" in ast.unparse(v) or "local(" in ast.unparse(v))]
